@@ -320,3 +320,89 @@ Proof.
     + cbn. apply E_Act. reflexivity.
   - split; reflexivity.
 Qed.
+
+(* ---- sequences of API calls from a thread that holds nothing ------------------------------- *)
+Definition empty_state : state := mkS [] false 0.
+
+Fixpoint calls (l : list nat) : stmt :=
+  match l with
+  | [] => SSkip
+  | f :: r => SSeq (SCall f SSkip SSkip) (calls r)
+  end.
+
+(* f is an api function with a body that can be called by a thread holding nothing *)
+Definition api_callable (P : prog) (f : nat) : bool :=
+  match nth_error P f with
+  | Some fd => f_api fd && (match f_body fd with Some _ => true | None => false end) &&
+               (match find_case fd empty_state with Some _ => true | None => false end)
+  | None => false
+  end.
+
+Section ApiCalls.
+Variable P : prog.
+Hypothesis HP : check_prog P = true.
+
+Lemma api_call_sound f r : api_callable P f = true ->
+  exec P (SCall f SSkip SSkip) empty_state r -> r = RNorm empty_state \/ r = RAbort.
+Proof.
+  unfold api_callable. destruct (nth_error P f) as [fd|] eqn:Hf; [|discriminate].
+  destruct (f_body fd) as [b|] eqn:Hb; [|rewrite andb_false_r; discriminate].
+  destruct (find_case fd empty_state) as [c|] eqn:Hc; [|rewrite andb_false_r; discriminate].
+  rewrite !andb_true_r. intros Hapi Hex.
+  destruct (find_case_spec _ _ _ Hc) as [Hin Hinit].
+  inversion Hex; subst;
+    repeat match goal with
+    | H1 : nth_error P f = Some _, H2 : nth_error P f = Some _ |- _ =>
+        rewrite H1 in H2; inversion H2; subst; clear H2
+    | H1 : nth_error P f = Some _, H2 : nth_error P f = None |- _ => rewrite H1 in H2; discriminate
+    | H1 : f_body ?x = Some _, H2 : f_body ?x = Some _ |- _ =>
+        rewrite H1 in H2; inversion H2; subst; clear H2
+    | H1 : f_body ?x = Some _, H2 : f_body ?x = None |- _ => rewrite H1 in H2; discriminate
+    | H : exec P _ (entry_of empty_state) _ |- _ => rewrite <- Hinit in H
+    end.
+  - (* the body returned *)
+    match goal with
+    | Hb' : exec P _ (init c) ?rb, Hr : ret_of ?rb = Some (?o, ?σc),
+      Hk : exec P (branch ?o SSkip SSkip) _ r |- _ =>
+        destruct (api_exits_empty P HP _ _ _ _ _ _ _ Hf Hapi Hb Hin Hb' Hr) as (_ & _ & Hh & Hs & Ht);
+        assert (Hm : merge empty_state σc = empty_state)
+          by (unfold merge, empty_state; cbn; now rewrite Hh, Hs, Ht);
+        rewrite Hm in Hk;
+        assert (Hbr : branch o SSkip SSkip = SSkip) by (destruct o; reflexivity);
+        rewrite Hbr in Hk; inversion Hk; subst
+    end. now left.
+  - now right.
+  - (* failure inside the body: excluded by soundness *)
+    match goal with
+    | Hb' : exec P _ (init c) (RFail ?v) |- _ =>
+        destruct (check_sound P HP _ _ _ _ _ Hf Hb Hin Hb') as (Hnf & _); exfalso; now apply (Hnf v)
+    end.
+  - match goal with
+    | Hb' : exec P _ (init c) ?rb, He : exists σ1, _ |- _ =>
+        destruct (check_sound P HP _ _ _ _ _ Hf Hb Hin Hb') as (_ & _ & Hbc);
+        destruct He as (σ1 & [-> | ->]); exfalso;
+        [apply (proj1 (Hbc σ1)) | apply (proj2 (Hbc σ1))]; reflexivity
+    end.
+Qed.
+
+(* any sequence of callable api functions, executed by a thread that holds nothing: no
+   violation, and when the sequence completes nothing is held (RAbort: a panic inside) *)
+Theorem api_sequence_sound : forall l r,
+  forallb (api_callable P) l = true ->
+  exec P (calls l) empty_state r -> r = RNorm empty_state \/ r = RAbort.
+Proof.
+  induction l as [|f l IH]; intros r Hl Hex; cbn in *.
+  - inversion Hex; subst. now left.
+  - apply andb_prop in Hl. destruct Hl as [Hf Hl].
+    inversion Hex; subst.
+    + match goal with
+      | H1 : exec P (SCall f SSkip SSkip) empty_state (RNorm ?s1), H2 : exec P (calls l) ?s1 r |- _ =>
+          destruct (api_call_sound _ _ Hf H1) as [Heq | Heq]; [|discriminate];
+          inversion Heq; subst; now apply IH
+      end.
+    + match goal with
+      | H1 : exec P (SCall f SSkip SSkip) empty_state r |- _ =>
+          destruct (api_call_sound _ _ Hf H1) as [-> | ->]; [discriminate | now right]
+      end.
+Qed.
+End ApiCalls.
